@@ -7,7 +7,10 @@ use crate::{
     metrics::{MetricType, Metrics},
     sketch::CountMinSketch,
 };
+#[cfg(not(transparencies_stretto_verif))]
 use parking_lot::Mutex;
+#[cfg(transparencies_stretto_verif)]
+use stretto_sim_rt::sync::Mutex;
 use std::{
     collections::{hash_map::RandomState, HashMap},
     hash::BuildHasher,
@@ -36,15 +39,21 @@ macro_rules! impl_policy {
             pub fn add(&self, key: u64, cost: i64) -> (Option<Vec<PolicyPair>>, bool) {
                 let mut inner = self.inner.lock();
                 let max_cost = inner.costs.get_max_cost();
+                #[cfg(transparencies_stretto_verif)]
+                crate::verif::policy_add_enter(&*inner, key, cost);
 
                 // cannot ad an item bigger than entire cache
                 if cost > max_cost {
+                    #[cfg(transparencies_stretto_verif)]
+                    crate::verif::policy_add_exit(&*inner, key, cost, false, None);
                     return (None, false);
                 }
 
                 // no need to go any further if the item is already in the cache
                 if inner.costs.update(&key, cost) {
                     // an update does not count as an addition, so return false.
+                    #[cfg(transparencies_stretto_verif)]
+                    crate::verif::policy_add_exit(&*inner, key, cost, false, None);
                     return (None, false);
                 }
 
@@ -56,6 +65,8 @@ macro_rules! impl_policy {
                     // overflowing. Do that now and stop here.
                     inner.costs.increment(key, cost);
                     self.metrics.add(MetricType::CostAdd, key, cost as u64);
+                    #[cfg(transparencies_stretto_verif)]
+                    crate::verif::policy_add_exit(&*inner, key, cost, true, None);
                     return (None, true);
                 }
 
@@ -74,6 +85,8 @@ macro_rules! impl_policy {
                 while room < 0 {
                     // fill up empty slots in sample
                     sample = inner.costs.fill_sample(sample);
+                    #[cfg(transparencies_stretto_verif)]
+                    crate::verif::policy_add_round(&*inner, room, &sample);
 
                     // find minimally used item in sample
                     let (mut min_key, mut min_hits, mut min_id, mut min_cost) =
@@ -93,6 +106,8 @@ macro_rules! impl_policy {
                     // If the incoming item isn't worth keeping in the policy, reject.
                     if inc_hits < min_hits {
                         self.metrics.add(MetricType::RejectSets, key, 1);
+                        #[cfg(transparencies_stretto_verif)]
+                        crate::verif::policy_add_exit(&*inner, key, cost, false, Some(&victims));
                         return (Some(victims), false);
                     }
 
@@ -115,6 +130,8 @@ macro_rules! impl_policy {
 
                 inner.costs.increment(key, cost);
                 self.metrics.add(MetricType::CostAdd, key, cost as u64);
+                #[cfg(transparencies_stretto_verif)]
+                crate::verif::policy_add_exit(&*inner, key, cost, true, Some(&victims));
                 (Some(victims), true)
             }
 
@@ -230,6 +247,20 @@ impl<S: BuildHasher + Clone + 'static> PolicyInner<S> {
             costs: SampledLFU::with_hasher(max_cost, hasher),
         };
         Ok(Arc::new(Mutex::new(this)))
+    }
+}
+
+#[cfg(transparencies_stretto_verif)]
+impl<S: BuildHasher + Clone + 'static> PolicyInner<S> {
+    /// (max_cost, used, sorted (key, charge))
+    pub(crate) fn verif_costs(&self) -> (i64, i64, Vec<(u64, i64)>) {
+        let mut v: Vec<(u64, i64)> = self.costs.key_costs.iter().map(|(k, c)| (*k, *c)).collect();
+        v.sort();
+        (self.costs.get_max_cost(), self.costs.used, v)
+    }
+
+    pub(crate) fn verif_estimate(&self, key: u64) -> i64 {
+        self.admit.estimate(key)
     }
 }
 
